@@ -259,6 +259,26 @@ def load_known():
         return json.load(f)
 
 
+class Watchdog(BaseException):
+    """Raised by the SIGALRM watchdog: the check's own work exceeded its time budget
+    (e.g. the implementation under test no longer terminates on some input)."""
+
+
+def arm_watchdog(seconds):
+    import signal
+
+    def _fire(signum, frame):
+        raise Watchdog(f"time budget of {seconds}s for the check's own work exceeded")
+    signal.signal(signal.SIGALRM, _fire)
+    # re-fires every 30 s in case some handler swallowed the first exception
+    signal.setitimer(signal.ITIMER_REAL, seconds, 30)
+
+
+def disarm_watchdog():
+    import signal
+    signal.setitimer(signal.ITIMER_REAL, 0, 0)
+
+
 # ------------------------------------------------------------------ context
 class Ctx:
     def __init__(self, prop, tier, seed):
@@ -325,6 +345,9 @@ class Ctx:
         # case files evaluated later must see the tables of THIS run's repository.
         self._lock = BuildLock()
         self._lock.__enter__()
+        # own-work time budget (lock waiting excluded): a hang in the implementation under test must
+        # end as a reported violation, never as a hung check
+        arm_watchdog(int(os.environ.get("VERIF_BUDGET_S", "700" if self.tier == "quick" else "4200")))
         if True:
             rc, out = regen_tables()
             self.extra["tables"] = out
@@ -429,6 +452,7 @@ class Ctx:
     _lock = None
 
     def finish(self):
+        disarm_watchdog()
         if self._lock is not None:
             self._lock.__exit__()
             self._lock = None
